@@ -13,26 +13,25 @@ The proof is modular (sigma enumerated: kernel taps are concrete; everything els
   K  (real _create_gaussian_kernel, `exp` an uninterpreted function with exp(t) > 0, equal arguments
      give equal values):  kernel shape size x size, every weight > 0, weights sum to 1, kernel invariant
      under reflection of either axis.
-  P  (real _apply_smoothing; kernel builder and convolve replaced by contract stubs that CHECK their
-     call-site preconditions and return fresh arrays): for every padding configuration (each of the four
-     padding arrays given or None), every singleton-axis position, symbolic nx, ny, x, padding arrays:
-       - convolve is called once, with the K kernel, mode "same", input not smaller than the kernel;
-       - its input `arr` equals the documented padded array (edge replication / given 1-D padding
-         arrays extended by their end values into the corners);
-       - the result is convolve's output restricted to [p, p+nx) x [p, p+ny), in x's shape;
-       - arr is pointwise affine in x (linear when no padding array is given), constant when x and the
-         given padding arrays are the same constant, within [lo, hi] when x and the padding arrays
-         are, and mirrored when x and the padding arrays are mirrored.
-  C  (consequences of the assumed convolve contract + K, for an arbitrary input array F of symbolic
-     shape (nx+2p, ny+2p) and a generic output index inside the restricted window):
+  C  (contract of "convolve with a K kernel", derived from the assumed convolve contract + K for an
+     ARBITRARY input array F of symbolic shape (nx+2p, ny+2p) and a generic output index inside the
+     central window [p,p+nx) x [p,p+ny)):
        linear in F;  equals c for F == c;  within [lo, hi] when F is;  commutes with mirroring F.
-  E  end to end (real kernel, real padding, convolve contract inlined) for the clauses that the solver
-     can decide on the composed expression: output shape, constants unchanged (symbolic shapes), and
-     affine / constants / mirror equivariance on enumerated small concrete shapes with symbolic values.
-
-The property's clauses follow from K, P, C by instantiating C's universally quantified F with P's arr
-(e.g. range: arr in [lo,hi] by P, hence conv(arr) in [lo,hi] by C, and the output is a restriction of
-conv(arr) by P).  That instantiation step is the only part not replayed inside the solver.
+  P/S (real _apply_smoothing / __call__; the kernel builder and convolve are replaced by contract stubs
+     that CHECK their call-site preconditions and return arrays carrying what K / C guarantee - the same
+     modular scheme as C02's composition): for every padding configuration (each of the four padding
+     arrays given or None), every singleton-axis position, symbolic nx, ny, x, padding arrays:
+       P: convolve is called once, with the K kernel, mode "same", on an (nx+2p, ny+2p) array `arr` that
+          equals the documented padded array (edge replication / given 1-D padding arrays extended by
+          their end values into the corners); the result is convolve's output restricted to the central
+          window, in x's shape; and arr satisfies the precondition of each C clause (within [lo,hi];
+          affine / linear combination of the arr's of x and y; constant; mirrored arr).
+       S: the property clauses on the OUTPUT of the real code: within the range of input and padding
+          values; affine in x (linear when no padding array is given); constants unchanged (padding
+          arrays equal to the constant or absent); mirror-equivariant with mirrored padding.
+  E  fully inlined cross-check (real kernel with exp UF, real padding, convolve contract expanded, no
+     stubs): output shape and constants for symbolic shapes; affine / constants / mirror equivariance on
+     enumerated small concrete shapes with symbolic values.
 """
 
 from __future__ import annotations
@@ -68,20 +67,21 @@ ASSUMPTIONS = [
     "sigma (std_discrete) enumerated: {1, 2} (quick), {1, 2, 3} (thorough); the kernel taps are then concrete",
     "exactly one axis of the (a,b,c) parameter array has extent 1 (call-site check in ParameterTransformation.get_input_shape for _all_arrays_2d transforms), the two others are >= 2; its position is enumerated",
     "padding arrays, when given, have the documented shapes (ny,) for axis 0 and (nx,) for axis 1",
-    "the property clauses are obtained from lemmas K, P, C by instantiating C's arbitrary input F with the padded array of P; this instantiation is a stated (not machine-replayed) step; end-to-end obligations (E) cover shape and constants for all shapes and affine/mirror on enumerated small shapes",
+    "modular composition: lemma K and lemma C (proved for an arbitrary kernel with K's properties and an arbitrary input array) are used as callee contracts inside the run of the real _apply_smoothing; their preconditions are proved at the call site (obligations P/*), their guarantees are attached to the stub results only inside the central window",
     "'mirrored accordingly': for a mirror of axis 0 the low/high padding arrays of axis 0 are exchanged and those of axis 1 are reversed (and vice versa)",
     "documented padding semantics (P/arr==spec): padding_low/high_axis0 fill the rows before/after axis 0; padding_low/high_axis1 fill the columns before/after axis 1 and are extended by their first/last value into the corners; None = replicate the edge (for axis 1: of the row-padded array)",
 ]
-MIN_OBLIGATIONS = {"quick": 800, "thorough": 1200}
+MIN_OBLIGATIONS = {"quick": 6000, "thorough": 9000}
 LEVEL_TEXT = (
-    "Deductive proof, for sigma in {1,2} and all design extents, values, padding configurations (16) and singleton-axis positions (3), of the kernel lemma "
-    "(positive, normalised, symmetric weights), the padding/call-site lemma of the real _apply_smoothing, and the consequences of the assumed convolve contract "
-    "(linear, constant-preserving, range-preserving, mirror-equivariant); constants and shape also end to end"
+    "Deductive proof, for sigma in {1,2} and all design extents, values, padding configurations (16) and singleton-axis positions (3), that the output of the real "
+    "GaussianSmoothing2D is affine in the design (linear with edge-replicated padding), leaves constants unchanged, stays within the range of input and padding values "
+    "and commutes with mirroring; modular: kernel lemma (positive, normalised, symmetric weights), convolution lemma on the assumed convolve contract, and the "
+    "padding/call-site lemma of the real _apply_smoothing with both lemmas used as checked callee contracts"
 )
 LEVEL_NOTE = (
-    "real arithmetic; sigma enumerated; jax.scipy.signal.convolve is an assumed contract (bounded cross-check against real JAX); exp uninterpreted with exp>0; "
-    "the clauses affine/range/mirror are composed from machine-proved lemmas K, P, C by one universal instantiation that is stated, not replayed in the solver; "
-    "end-to-end affine/mirror obligations only on enumerated small concrete shapes"
+    "real arithmetic; sigma enumerated ({1,2}; 3 in the thorough tier); jax.scipy.signal.convolve is an assumed contract (bounded cross-check against real JAX); "
+    "exp uninterpreted with exp>0; the clauses on the real output (S/*) use lemmas K and C as callee contracts with call-site preconditions proved (P/*); "
+    "fully inlined affine/mirror obligations (E) only on enumerated small concrete shapes; the convex-combination bound of lemma C is discharged by cvc5 from per-term hints that are themselves proved"
 )
 
 AXIOMS = {"exp": [lambda args, term, apps: [term > 0]]}
@@ -340,11 +340,16 @@ def _lemma_K(sigma):
 
 
 class _Recorder:
-    """contract stubs for the two callees of _apply_smoothing"""
+    """contract stubs for the two callees of _apply_smoothing.
 
-    def __init__(self, c, call, prefix=""):
-        self.c, self.call, self.prefix = c, call, prefix
+    convolve stub: checks the call-site preconditions (mode, kernel = the lemma-K kernel, input extents
+    (nx+2p, ny+2p)), hands the input to `post`, which checks the precondition of the lemma-C clause under
+    study and returns an array carrying exactly what that clause guarantees inside the central window."""
+
+    def __init__(self, c, call, dims, prefix="", post=None):
+        self.c, self.call, self.prefix, self.post = c, call, prefix, post
         self.size = call[0]
+        self.dims = dims  # (N0, N1) = (nx+2p, ny+2p)
         self.kernel = None
         self.calls = []
 
@@ -366,16 +371,23 @@ class _Recorder:
         c.prove(f"{self.prefix}P/convolve_input_2d", ok)
         if ok:
             for k in range(2):
-                c.prove(f"{self.prefix}P/convolve_input_not_smaller_than_kernel[{k}]", in1.shape[k] >= self.size)
-        R = A.fresh_array("R", in1.shape)
-        self.calls.append((in1, R))
+                ok = c.prove(f"{self.prefix}P/arr_shape[{k}]", v_eq(in1.shape[k], self.dims[k])) and ok
+        if ok:
+            in1 = SymArray(self.dims, in1.at_index, in1.kind)
+            R = self.post(in1) if self.post is not None else None
+            if R is None:
+                R = A.fresh_array("R", self.dims)
+        else:
+            R = A.fresh_array("R", in1.shape)
+        self.calls.append((in1 if ok else None, R))
         return R
 
 
-def _run_recorded(c, sigma, call, pads, x3, prefix=""):
+def _run_recorded(c, sigma, call, dims, pads, x3, prefix="", post=None):
+    """real transform with the two callees replaced by their contracts -> (out, arr, R)"""
     import fdtdx.objects.device.parameters.continuous as C
 
-    rec = _Recorder(c, call, prefix)
+    rec = _Recorder(c, call, dims, prefix, post)
     T = _transform(sigma, pads)
     saved = C.GaussianSmoothing2D._create_gaussian_kernel
     saved_conv = _CONV[0]
@@ -389,9 +401,12 @@ def _run_recorded(c, sigma, call, pads, x3, prefix=""):
     ok = isinstance(out, dict) and set(out) == {"p"}
     c.prove(f"{prefix}P/returns_dict_with_same_keys", ok)
     ok2 = c.prove(f"{prefix}P/convolve_called_once", len(rec.calls) == 1)
-    if not (ok and ok2):
+    if not (ok and ok2) or rec.calls[0][0] is None:
         return None, None, None
-    return A.asarray(out["p"]), rec.calls[0][0], rec.calls[0][1]
+    out = A.asarray(out["p"])
+    if not prove_same_shape(f"{prefix}S/out_shape", out, x3):
+        return None, None, None
+    return SymArray(x3.shape, out.at_index, out.kind), rec.calls[0][0], rec.calls[0][1]
 
 
 def _mirror_inputs(ax, x3, s, pads):
@@ -408,6 +423,9 @@ def _mirror_inputs(ax, x3, s, pads):
 
 
 def _lemma_P(sigma, s, combo):
+    """Lemma P and, through the lemma-C contract of the convolution, the property clauses S/* on the
+    output of the real _apply_smoothing."""
+
     def body(c, inp):
         call = _discover(sigma)
         p = call[0] // 2
@@ -418,60 +436,96 @@ def _lemma_P(sigma, s, combo):
         inp.scalar("hi", hi)
         rng = lambda v, idx: A._vand(v >= lo, v <= hi)  # noqa: E731
         sh = _shape3(s, nx, ny)
+        ax3 = [k for k in range(3) if k != s]
         x = A.fresh_array("x", sh, fact=rng)
         inp.array("x", x)
         pads = _fresh_pads(combo, nx, ny, fact=rng, inp=inp)
         c.cover("pre")
-        out, arr, R = _run_recorded(c, sigma, call, pads, x)
+        dims = (nx + 2 * p, ny + 2 * p)
+
+        def in_window(idx):
+            I, J = idx
+            return A._vand(A._vand(I >= p, I < p + nx), A._vand(J >= p, J < p + ny))
+
+        def guaranteed(name, holds, expr):
+            """array about which lemma C guarantees `value == expr(idx)` / `expr(value, idx)` inside the
+            central window - only if the lemma's precondition `holds` was proved at this call site"""
+            if not holds:
+                return None
+            return A.fresh_array(name, dims, fact=lambda v, idx: A._vor(A._vnot(in_window(idx)), expr(v, idx)))
+
+        # --- base run: documented padding, frame, range ---------------------------------------
+        def post_base(arr):
+            x2 = _two_d(x, s, nx, ny)
+            prove_arrays_equal("P/arr==documented_padding", arr, _pad_spec(x2, pads, p, nx, ny))
+            pre = prove_pointwise("P/arr_within_input_and_padding_range", arr, rng)
+            return guaranteed("R", pre, rng)  # lemma C/range
+
+        out, arr, R = _run_recorded(c, sigma, call, dims, pads, x, post=post_base)
         if out is None:
             return
-        N0, N1 = nx + 2 * p, ny + 2 * p
-        ok = arr.ndim == 2 and c.prove("P/arr_shape[0]", v_eq(arr.shape[0], N0)) and c.prove("P/arr_shape[1]", v_eq(arr.shape[1], N1))
-        if not ok:
-            return
-        arr = SymArray((N0, N1), arr.at_index, arr.kind)
-        x2 = _two_d(x, s, nx, ny)
-        prove_arrays_equal("P/arr==documented_padding", arr, _pad_spec(x2, pads, p, nx, ny))
-        # frame: the result is the restriction of convolve's output to the central window
-        if prove_same_shape("P/out_shape", out, x):
-            out_ = SymArray(sh, out.at_index, out.kind)
-            Rw = SymArray(sh, lambda idx: R.at_index(tuple(A._raw_index(A._wrap_idx(i) + p) for k, i in enumerate(idx) if k != s)), "real")
-            prove_arrays_equal("P/out==central_window_of_convolve_output", out_, Rw)
-        # range of the padded array
-        prove_pointwise("P/arr_within_input_and_padding_range", arr, rng)
+        Rw = SymArray(sh, lambda idx: R.at_index(tuple(A._raw_index(A._wrap_idx(i) + p) for k, i in enumerate(idx) if k != s)), "real")
+        prove_arrays_equal("P/out==central_window_of_convolve_output", out, Rw)
+        prove_pointwise("S/within_range_of_input_and_padding", out, rng)
 
-        # affine in x for fixed padding arrays (linear if none is given)
+        # --- affine in x for fixed padding arrays (linear if none is given) -----------------------
         y = A.fresh_array("y", sh)
         inp.array("y", y)
         t = sym_real("t")
         inp.scalar("t", t)
-        _, arr_y, _ = _run_recorded(c, sigma, call, pads, y, prefix="y:")
-        _, arr_m, _ = _run_recorded(c, sigma, call, pads, x * t + y * (1 - t), prefix="mix:")
-        if arr_y is not None and arr_m is not None:
-            prove_arrays_equal("P/arr_affine_in_x", arr_m, arr * t + arr_y * (1 - t))
+        out_y, arr_y, R_y = _run_recorded(c, sigma, call, dims, pads, y, prefix="y:")
+        if out_y is None:
+            return
+
+        def post_comb(a, b, tag):
+            def post(arr_m):
+                pre = prove_arrays_equal(f"P/arr_{tag}_in_x", arr_m, arr * a + arr_y * b)
+                return guaranteed("Rm", pre, lambda v, idx: v_eq(v, R.at_index(tuple(A._raw_index(k) for k in idx)) * a + R_y.at_index(tuple(A._raw_index(k) for k in idx)) * b))  # lemma C/linear
+
+            return post
+
+        out_m, _, _ = _run_recorded(c, sigma, call, dims, pads, x * t + y * (1 - t), prefix="mix:", post=post_comb(t, 1 - t, "affine"))
+        if out_m is not None:
+            prove_arrays_equal("S/affine_in_x", out_m, out * t + out_y * (1 - t))
         if not any(combo):
             al, be = sym_real("alpha"), sym_real("beta")
             inp.scalar("alpha", al)
             inp.scalar("beta", be)
-            _, arr_l, _ = _run_recorded(c, sigma, call, pads, x * al + y * be, prefix="lin:")
-            if arr_y is not None and arr_l is not None:
-                prove_arrays_equal("P/arr_linear_in_x(edge_replicated)", arr_l, arr * al + arr_y * be)
+            out_l, _, _ = _run_recorded(c, sigma, call, dims, pads, x * al + y * be, prefix="lin:", post=post_comb(al, be, "linear"))
+            if out_l is not None:
+                prove_arrays_equal("S/linear_in_x(edge_replicated)", out_l, out * al + out_y * be)
 
-        # constants
+        # --- constants ----------------------------------------------------------------------
         cval = sym_real("c")
         inp.scalar("c", cval)
         xc = A.full(sh, cval, "real")
         pc = [A.full((ny if k < 2 else nx,), cval, "real") if g else None for k, g in enumerate(combo)]
-        _, arr_c, _ = _run_recorded(c, sigma, call, pc, xc, prefix="const:")
-        if arr_c is not None:
-            prove_pointwise("P/arr_constant", arr_c, lambda v, idx: v_eq(v, cval))
 
-        # mirroring
+        def post_const(arr_c):
+            pre = prove_pointwise("P/arr_constant", arr_c, lambda v, idx: v_eq(v, cval))
+            return guaranteed("Rc", pre, lambda v, idx: v_eq(v, cval))  # lemma C/const
+
+        out_c, _, _ = _run_recorded(c, sigma, call, dims, pc, xc, prefix="const:", post=post_const)
+        if out_c is not None:
+            prove_pointwise("S/constant_unchanged", out_c, lambda v, idx: v_eq(v, cval))
+
+        # --- mirroring ----------------------------------------------------------------------
         for ax in (0, 1):
             xm, pm = _mirror_inputs(ax, x, s, pads)
-            _, arr_f, _ = _run_recorded(c, sigma, call, pm, xm, prefix=f"mirror{ax}:")
-            if arr_f is not None:
-                prove_arrays_equal(f"P/arr_mirror{ax}", arr_f, A.flip(arr, axis=ax))
+
+            def post_mirror(arr_f, ax=ax):
+                pre = prove_arrays_equal(f"P/arr_mirror{ax}", arr_f, A.flip(arr, axis=ax))
+
+                def expr(v, idx):
+                    src = list(idx)
+                    src[ax] = dims[ax] - 1 - idx[ax]
+                    return v_eq(v, R.at_index(tuple(A._raw_index(k) for k in src)))
+
+                return guaranteed("Rf", pre, expr)  # lemma C/mirror
+
+            out_f, _, _ = _run_recorded(c, sigma, call, dims, pm, xm, prefix=f"mirror{ax}:", post=post_mirror)
+            if out_f is not None:
+                prove_arrays_equal(f"S/mirror{ax}", out_f, A.flip(out, axis=ax3[ax]))
 
     return body
 
@@ -641,7 +695,7 @@ def tasks(tier, seed):
             for combo in ALL_COMBOS if (tier == "thorough" or sg == 1) else [ALL_COMBOS[0], ALL_COMBOS[-1], ALL_COMBOS[5]]:
                 out[f"E/sym/sigma{sg}/s{s}/{_combo_label(combo)}"] = Task(_end_to_end_symbolic(sg, s, combo), extra_patch=kpatch, max_paths=64, on_exception=_no_exception)
     small = []
-    dims = [(2, 2), (2, 3), (3, 2), (4, 3)] if tier == "quick" else [(2, 2), (2, 3), (3, 2), (3, 3), (4, 3), (2, 5), (7, 2), (8, 9)]
+    dims = [(2, 2), (2, 3), (3, 2), (4, 3)] if tier == "quick" else [(2, 2), (2, 3), (3, 2), (3, 3), (4, 3), (2, 5), (7, 2), (5, 6)]
     k = 0
     for nx, ny in dims:
         for combo in ALL_COMBOS:
